@@ -1443,7 +1443,7 @@ def python_snippet(case):
     return ("import sys; sys.path.insert(0, '/verif/tools'); from props import c12; "
             "print(c12._hist_impl(%r))" % (case,))
 
-LEVEL_TEXT = ('Machine-checked Coq theorems (43, all closed under the global context) about a line-by-line Gallina model of find_orfs, '
+LEVEL_TEXT = ('Machine-checked Coq theorems (44, all closed under the global context) about a line-by-line Gallina model of find_orfs, '
               '_frame_start, _inds2orf, the codon locator of match(), BioSeq/BioBasket.find_orfs and the len_* filters. Every clause of the '
               'property text is a theorem about the model: '
               '(1) every mode, every sequence, rf, minlen, no hypothesis: the fuelled pairing loop terminates within |starts|+|stops|+1 '
@@ -1476,7 +1476,8 @@ LEVEL_TEXT = ('Machine-checked Coq theorems (43, all closed under the global con
               '(C12_gap_bijection_any_gap). CUSTOM codon sets (start=/stop= alternations of literal words, any lengths): every mode equals '
               'its specification over the custom codon lists (C12_custom_modes_spec, C12_custom_codon_lists), all intervals lie inside the '
               'sequence, respect minlen and identify a requested frame (C12_custom_invariants), the default pairing lists exactly the '
-              '(a, e) with is_orf_x, once, in order (C12_custom_is_orf), P2 holds for them under any gap set (C12_custom_gap_bijection); on gap-free input the custom codon lists are exactly the in-frame occurrences when the three-letter '
+              '(a, e) with is_orf_x, once, in order (C12_custom_is_orf), P2 holds for them under any gap set (C12_custom_gap_bijection), for three-letter codon sets frames count residues and ORFs hold a '
+              'multiple of three residues (C12_custom_is_orf_residues); on gap-free input the custom codon lists are exactly the in-frame occurrences when the three-letter '
               'words cannot overlap one another (C12_custom_codons_complete) and not otherwise (C12_custom_overlap_refuted: ATG|GTG|TTG, an '
               'in-frame GTG hidden behind an out-of-frame ATG by the non-overlapping finditer). ARBITRARY regular expressions as start/stop (model/C12_Rx.v on top of the regex-tree layer '
               'of C13: trees, gapify incl. the character-class unit of 7e33c72, backtracking matcher): for every tree, gap option, rf form '
